@@ -269,6 +269,10 @@ def fake_clock_waits(chk, mod, rng, n_hist):
     return lines, want, n
 
 
+async def _mk_async(cls, port, version, given):
+    return cls("127.0.0.1", port=port, community="public", version=version, timeout=0.05, policer=given, limit_rps=50)
+
+
 def session_policing(chk):
     """every request of a rate-limited session is preceded by exactly one policer wait (sync and async clients)"""
     import sys
@@ -286,14 +290,17 @@ def session_policing(chk):
 
         async def wait(self):
             events.append("wait")
+            who.append(id(self))
 
         def wait_sync(self):
             events.append("wait")
+            who.append(id(self))
+    who = []        # which policer object each wait went to: the session has ONE limiter, shared by all its request sources
     n = 0
     peer = e2e.Peer("v2c")
     rows = [((1, 3, 6, 1, k), ber.INT(k)) for k in range(1, 8)]
 
-    def reply(req):
+    def reply(req, who_=None):
         o = tuple(req["varbinds"][0][0]) if req.get("varbinds") else ()
         later = [r for r in rows if r[0] > o]
         if req["pdu_type"] == 5:
@@ -334,13 +341,57 @@ def session_policing(chk):
                           f"{events.count('wait')} times (events {events[:12]})",
                           {"kind": "oracle", "lines": [f"sync {what}"], "impl": [str(events)],
                            "expected": "one policer wait before every request"})
-    # async client
-    for what in ("get", "get_many", "getnext", "getbulk", "fetch"):
+    # several request sources on ONE sync session (walks interleaved with gets, walks one after another): all of them
+    # draw from the session's limiter — the very object the caller configured
+    del events[:]
+    del who[:]
+    mine = Counting()
+    conv = e2e.Conv(peer, env)
+    sess = SnmpSession("127.0.0.1", port=env.agent.port, community="public", version=SnmpVersion.v2c, timeout=0.05, policer=mine,
+                       max_repetitions=2)
+
+    def script2(op, req):
+        events.append("req")
+        return reply(req)
+    sess._sock = e2e.SockShim(conv, script2)
+    for _row in sess.getnext("1.3.6.1"):
+        sess.get("1.3.6.1.1")
+    for _ in range(2):
+        list(sess.getbulk("1.3.6.1"))
+    list(sess.fetch("1.3.6.1"))
+    n += 1
+    nreq = events.count("req")
+    if events != ["wait", "req"] * nreq or any(w != id(mine) for w in who) or len(who) != nreq:
+        chk.violation("oracle", f"sync session, walks interleaved with gets: {nreq} requests, {len(who)} waits of which "
+                      f"{sum(1 for w in who if w == id(mine))} went to the session's policer (the rest to some other limiter object, "
+                      "whose slots the session's other requests do not see)",
+                      {"kind": "oracle", "lines": ["sync mixed sources"], "impl": [str(events[:20])],
+                       "expected": "every request preceded by one wait on the configured policer"})
+    # an explicit policer is the session's limiter even when limit_rps is given too ("policer overrides limit_rps")
+    for mode in ("sync", "async"):
+        given = Counting()
+        if mode == "sync":
+            sx = SnmpSession("127.0.0.1", port=env.agent.port, community="public", version=SnmpVersion.v2c, timeout=0.05,
+                             policer=given, limit_rps=50)
+        else:
+            from gufo.snmp.async_client import SnmpSession as ASession0
+            sx = e2e.run_coro(_mk_async(ASession0, env.agent.port, SnmpVersion.v2c, given), 5.0)
+        n += 1
+        if getattr(sx, "_policer", None) is not given:
+            chk.violation("oracle", f"{mode} SnmpSession(policer=P, limit_rps=50): the session's limiter is {type(getattr(sx, '_policer', None)).__name__}, "
+                          "not the policer that was passed", {"kind": "oracle", "lines": [f"{mode} policer+limit_rps"]})
+    # async client: community sessions and authenticated v3 sessions (whose refresh handshake must not switch policing off)
+    from props import c18
+    apeers = [peer, e2e.Peer("v3", auth=1, priv=0, auth_kt="localized"), e2e.Peer("v3", auth=2, priv=2, auth_kt="localized", priv_kt="localized")]
+    for what, peer in [(w, p) for p in apeers for w in (("get", "get_many", "getnext", "getbulk", "fetch") if p is apeers[0] else ("get", "getbulk"))]:
         del events[:]
 
-        def ascript(dg):
+        def ascript(dg, peer=peer):
             events.append("req")
-            return reply(peer.decode(dg))
+            req = peer.decode(dg)
+            if peer.kind == "v3" and req["pdu_type"] == 0 and not req["varbinds"]:
+                return [peer.state.report(req["request_id"], req["msg_id"], auth=bool(peer.state.auth_alg))]
+            return reply(req)
 
         class SockProxy:
             """the session's socket with every send_* call logged at the moment it is made (the policer must have
@@ -360,8 +411,7 @@ def session_policing(chk):
 
         async def main(port):
             from gufo.snmp.async_client import SnmpSession as ASession
-            s = ASession("127.0.0.1", port=port, community="public", version=SnmpVersion.v2c, timeout=1.0,
-                         policer=Counting(), max_repetitions=2)
+            s = ASession("127.0.0.1", port=port, timeout=1.0, policer=Counting(), max_repetitions=2, **c18.session_kwargs(peer))
             s._sock = SockProxy(s._sock)
             if what == "get":
                 await s.get("1.3.6.1.1")
@@ -376,13 +426,13 @@ def session_policing(chk):
         nreq = events.count("req")
         order = [e for e in events if e != "req"]
         if order != ["wait", "send"] * (len(order) // 2) or len(order) != 2 * nreq:
-            chk.violation("oracle", f"async SnmpSession.{what} with a policer: the policer must be awaited before each request is "
+            chk.violation("oracle", f"async SnmpSession.{what} ({peer.label}) with a policer: the policer must be awaited before each request is "
                           f"handed to the socket; observed {order[:12]} for {nreq} requests",
                           {"kind": "oracle", "lines": [f"async {what}"], "impl": [str(events)],
                            "expected": "wait, send, wait, send, ..."})
         events[:] = [e for e in events if e != "send"]
         if not (events == ["wait", "req"] * nreq and nreq >= 1):
-            chk.violation("oracle", f"async SnmpSession.{what} with a policer: {nreq} requests but the policer was "
+            chk.violation("oracle", f"async SnmpSession.{what} ({peer.label}) with a policer: {nreq} requests but the policer was "
                           f"consulted {events.count('wait')} times (events {events[:12]})",
                           {"kind": "oracle", "lines": [f"async {what}"], "impl": [str(events)],
                            "expected": "one policer wait before every request"})
